@@ -3,6 +3,7 @@ constraint (pandas + polars)."""
 from __future__ import annotations
 
 import copy
+import random
 
 import pandas as pd
 
@@ -35,7 +36,8 @@ def new_run():
                "dtype / float (schema column, regex column, stand-alone Column.validate; NaN counts as "
                "null); Column(drop_invalid_rows=True) INSIDE a DataFrameSchema with or without the "
                "schema-level option (pandas and polars; judged only when an object is returned: no "
-               "invalid row in it, no valid row missing); the surviving identities are compared with the reference model's rows "
+               "invalid row in it, no valid row missing); 15% of the pandas cases put n_failure_cases "
+               "(a reporting option) on their checks - the surviving rows must not change; the surviving identities are compared with the reference model's rows "
                "satisfying every row-level constraint; non-trivial = at least one row must be dropped "
                "or a non-row error must be raised; distinct = canonical hash",
                ["reference model pvm/model.py; index labels unique and non-null (documented limit)",
@@ -206,8 +208,35 @@ def classify_exc(table, out):
     return None
 
 
+MECH_NFC = "n_failure_cases-truncates-the-rows-drop_invalid_rows-removes"
+
+
+def add_n_failure_cases(rng, spec):
+    """``n_failure_cases`` limits what a check REPORTS; which rows violate it is
+    unchanged, so the rows drop_invalid_rows removes must be unchanged too.
+    Returns the places ('column' / 'index' / 'level' / 'frame' / 'field') that
+    got the option."""
+    where = []
+    fields = [("field", spec["field"])] if spec["kind"] == "series" else [("column", fs) for fs in spec["columns"]]
+    idx = spec.get("index") or []
+    fields += [("level" if len(idx) > 1 else "index", fs) for fs in idx]
+    for place, fs in fields:
+        for k in fs.get("checks") or []:
+            if not k["kind"].startswith("custom") and rng.random() < 0.7:
+                k["n_failure_cases"] = rng.choice([1, 1, 2])
+                where.append(place)
+    for k in spec.get("checks") or []:
+        if not k["kind"].startswith("custom") and rng.random() < 0.7:
+            k["n_failure_cases"] = rng.choice([1, 1, 2])
+            where.append("frame")
+    return sorted(set(where))
+
+
 def pandas_case(run, rng):
     spec, table, typed, muts, opts = gen(rng)
+    # drawn from a generator of its own: the cases themselves are unchanged
+    r2 = random.Random(canon_hash(["n_failure_cases", spec, table]))
+    nfc = add_n_failure_cases(r2, spec) if r2.random() < 0.15 else []
     v = expected(spec, typed)
     try:
         data = B.pandas_table(spec, table)
@@ -311,13 +340,27 @@ def pandas_case(run, rng):
         elif survived != exp:
             run.count("undecided:repeated_labels:valid_row_dropped_or_reordered")
         return
+    if nfc:
+        run.count("rows_compared:n_failure_cases")
+        for w in nfc:
+            run.count(f"rows_compared:n_failure_cases:on_{w}")
+        if len(exp) < n:
+            run.count("rows_compared:n_failure_cases:with_drops")
     if survived != exp:
+        mech = None
+        extra = [i for i in survived if i not in exp]
+        if nfc and extra and not [i for i in exp if i not in survived] and all(
+                any(e.reason == "DATAFRAME_CHECK" and e.cells is not None and i in [r for r, _ in e.cells]
+                    for e in v.errors) for i in extra):
+            # every invalid survivor violates a check (n_failure_cases limits the
+            # REPORTED failure cases; the rows to drop were taken from the report)
+            mech = MECH_NFC
         run.violation("surviving-rows-differ",
                       C.brief(spec, table, {"expected_positions": exp, "survived_positions": survived,
                                             "model_errors": [(e.reason, e.column, e.check,
                                                               [i for i, _ in e.cells]) for e in v.errors],
-                                            "coercion": opts}),
-                      None)
+                                            "coercion": opts, "n_failure_cases_on": nfc}),
+                      mech)
         return
     # values: equal to the (typed) input rows
     run.count("values_compared")
@@ -806,6 +849,7 @@ def finalize(run, ctx):
                     ("non_row_error_expected_raise:whole_column_check:frame:column", 18),
                     ("non_row_error_expected_raise:whole_column_check:frame:frame", 9),
                     ("non_row_error_expected_raise:whole_column_check:series:column", 4),
+                    ("rows_compared:n_failure_cases", 20), ("rows_compared:n_failure_cases:with_drops", 12),
                     ("column_level:rows_compared", 50),
                     ("column_level:rows_compared:with_invalid_rows:pandas", 20),
                     ("column_level:rows_compared:with_invalid_rows:polars", 15),
